@@ -100,13 +100,38 @@ class Lab:
         # caching disabled: no cache backends at all
         self.repo = repository.UnconfiguredTree(self.er.path, cache=(), repo_config=repo_objs.RepoConfig(location=self.er.path))
 
+    def _timed(self, idx, limit=40):
+        """pkg.data under a watchdog: a wedged daemon conversation must not hang the check"""
+        import signal
+
+        from pkgcore.ebuild import processor
+
+        def on_alarm(_s, _f):
+            raise TimeoutError(f"metadata regeneration did not finish within {limit}s (daemon conversation wedged)")
+
+        old = signal.signal(signal.SIGALRM, on_alarm)
+        signal.setitimer(signal.ITIMER_REAL, limit)
+        try:
+            pkg = self.repo.package_class("cat", f"p{idx}", "1")
+            return dict(pkg.data)
+        except TimeoutError:
+            for lst in (processor.active_ebp_list, processor.inactive_ebp_list):
+                while lst:
+                    try:
+                        lst.pop().shutdown_processor(force=True)
+                    except Exception:
+                        pass
+            raise
+        finally:
+            signal.setitimer(signal.ITIMER_REAL, 0)
+            signal.signal(signal.SIGALRM, old)
+
     def regen(self, idx):
         """-> observation dict (projection of the raw metadata into the spec's vocabulary)"""
         eapi, prog = self.cases[idx]
         obs = dict(eapi=eapi, prog=prog, failed=False, err="", keys=[], inherited=[], phases=[], dash=False)
         try:
-            pkg = self.repo.package_class("cat", f"p{idx}", "1")
-            data = dict(pkg.data)
+            data = self._timed(idx)
         except Exception as e:  # judged by the trace spec (RegenFailed)
             obs["failed"] = True
             obs["err"] = f"{type(e).__name__}: {e}"[:300]
@@ -142,8 +167,11 @@ def random_prog(r_, eapi):
     counter = [0]
     shared = ["s1", "s2"]
 
-    def toks():
+    def toks(v=None):
         out = []
+        if v == "IUSE" and r_.random() < 0.3:
+            # IUSE defaults: +flag / -flag (PMS 7.2), including one letter flag names
+            out.append(r_.choice(["+", "-"]) + r_.choice(["n", "e", "E", "x", "flag"]))
         for _ in range(r_.randint(1, 3)):
             if r_.random() < 0.2:
                 out.append(r_.choice(shared))
@@ -158,7 +186,7 @@ def random_prog(r_, eapi):
         v = r_.choice(vs)
         x = r_.random()
         if x < 0.5:
-            return S("set", v, toks() if r_.random() < 0.9 else [])
+            return S("set", v, toks(v) if r_.random() < 0.9 else [])
         if x < 0.85 or not allow_unset:
             return S("app", v, toks())
         return S("unset", v)
@@ -247,14 +275,13 @@ def _run(ck, processor):
             ck.mc("EclassAccum_MC", cfg_text=mc_cfg(["IUSE", "LICENSE"], [8], 2, 1, 1, False, False), workers=4, timeout=300,
                   label="MC:EclassAccum_MC IUSE+LICENSE eapi8 (2,1,1)")
         else:
-            ck.mc("EclassAccum_MC", cfg_text=mc_cfg(["IUSE", "LICENSE"], [8], 3, 2, 1, False, False), workers=8, timeout=2400,
-                  label="MC:EclassAccum_MC IUSE+LICENSE eapi8 (3,2,1)", heap="6g")
-            ck.mc("EclassAccum_MC", cfg_text=mc_cfg(["DEPEND", "RDEPEND"], [3, 4], 2, 2, 1, False, False), workers=8, timeout=1200,
-                  label="MC:EclassAccum_MC DEPEND+RDEPEND eapi3,4 (2,2,1)")
-            ck.mc("EclassAccum_MC", cfg_text=mc_cfg(["RESTRICT"], [7, 8], 3, 2, 2, False, False), workers=8, timeout=1200,
-                  label="MC:EclassAccum_MC RESTRICT eapi7,8 (3,2,2)")
-            ck.mc("EclassAccum_MC", cfg_text=mc_cfg(["IUSE"], [1, 2, 4], 2, 2, 1, True, False), workers=8, timeout=1200,
-                  label="MC:EclassAccum_MC phases eapi1,2,4 (2,2,1)")
+            for vars_, eapis, sizes, ph in ((["IUSE", "LICENSE"], [8], (3, 1, 1), False),
+                                            (["IUSE", "LICENSE"], [8], (2, 2, 1), False),
+                                            (["DEPEND", "RDEPEND"], [3, 4], (2, 1, 1), False),
+                                            (["RESTRICT"], [7, 8], (3, 1, 1), False),
+                                            (["IUSE"], [1, 2, 4], (2, 1, 1), True)):
+                ck.mc("EclassAccum_MC", cfg_text=mc_cfg(vars_, eapis, *sizes, ph, False), workers=8, timeout=2400, heap="6g",
+                      label=f"MC:EclassAccum_MC {'+'.join(vars_)} eapi{','.join(map(str, eapis))} {sizes}{' phases' if ph else ''}")
         # vacuity guard: bash's default previous-scope unset semantics must break the law
         res = ck.mc("EclassAccum_MC", cfg_text=mc_cfg(["IUSE"], [8], 2, 1, 0, False, True, invariants=False), workers=2, timeout=300,
                     label="MC:EclassAccum_MC Reveal=TRUE (must fail)", expect_ok=False)
@@ -267,13 +294,14 @@ def _run(ck, processor):
     if replay:
         cases.append(("replay", replay["eapi"], replay["prog"]))
     else:
-        n_exp = ck.pick(24, 700)
+        n_exp = ck.pick(16, 700)
         exp = tlc_export(ck, "EclassAccum_Export",
                          export_cfg(["IUSE", "DEPEND", "RDEPEND", "RESTRICT", "PROPERTIES", "LICENSE", "REQUIRED_USE"],
                                     [0, 1, 2, 3, 4, 5, 6, 7, 8], 2, 1, n_exp),
-                         f"Export:EclassAccum_Export random members n={n_exp}", seed() + 49, 600)
+                         f"Export:EclassAccum_Export EAPI-boundary cases + {n_exp} random members", seed() + 49, 600)
+        exp.sort(key=lambda c: c["tag"] != "boundary")  # the boundary cases first: never cut by the time box
         for c in exp:
-            cases.append(("tlc", c["eapi"], c["prog"]))
+            cases.append(("tlc-" + c["tag"], c["eapi"], c["prog"]))
         if not ck.quick:
             # one (variable, EAPI) pair of the family completely
             ex2 = tlc_export(ck, "EclassAccum_Export", export_cfg(["IUSE"], [8], 1, 1, 0),
@@ -283,7 +311,7 @@ def _run(ck, processor):
             for c in ex2[:500]:
                 cases.append(("tlc-family", c["eapi"], c["prog"]))
         r_ = rng(49)
-        for _ in range(ck.pick(24, 600)):
+        for _ in range(ck.pick(16, 600)):
             eapi = r_.randint(0, 8)
             cases.append(("random", eapi, random_prog(r_, eapi)))
     # ---- 3. execute on the real daemon
@@ -291,11 +319,13 @@ def _run(ck, processor):
     for _o, eapi, prog in cases:
         lab.add(eapi, prog)
     lab.open()
-    budget = ck.pick(38, 780)
+    # time box of the daemon phase (loaded machine: VERIF_TIME_SCALE > 1)
+    budget = ck.pick(30, 500) * float(os.environ.get("VERIF_TIME_SCALE", "1"))
+    t_phase = time.time()
     events = []
     skipped = 0
     for idx, (origin, eapi, prog) in enumerate(cases):
-        if time.time() - t_start > budget and not replay and len(events) >= 8:
+        if time.time() - t_phase > budget and not replay and len(events) >= 12:
             skipped += 1
             continue
         obs = lab.regen(idx)
@@ -324,7 +354,9 @@ def _run(ck, processor):
         ops_in_eclasses = sorted({s["op"] for n in prog["ecl"] for s in prog["ecl"][n]})
         unset_vars = sorted({s["var"] for n in prog["ecl"] for s in prog["ecl"][n] if s["op"] == "unset"})
         ck.violation(v["clause"], dict(case=dict(eapi=e["eapi"], prog=prog), eapi=e["eapi"], origin=e["origin"],
-                                       eclass_unsets=unset_vars, eclass_ops=ops_in_eclasses,
+                                       eclass_unsets=unset_vars, eclass_ops=ops_in_eclasses, has_eclass_unset=bool(unset_vars),
+                                       echo_option_word=any(t in ("-n", "-e", "-E") for f in [prog["eb"]] + list(prog["ecl"].values())
+                                                            for s in f for t in s["toks"]),
                                        observed=dict(keys=e["keys"], inherited=e["inherited"], phases=e["phases"], dash=e["dash"]),
                                        error=e.get("err", ""),
                                        ebuild=render_file(prog["eb"], 0),
